@@ -189,7 +189,80 @@ theorem C15_region_trailing_comma_spec (a b : List Tok) :
     regionTrailingComma a b = true ↔ (a ≠ b ∧ stripTC a = stripTC b) := by
   simp [regionTrailingComma]
 
+/-- `stripTC` deletes commas only: every other token survives, in order -/
+theorem stripTC_filter_nonComma (l : List Tok) :
+    (stripTC l).filter (· != .comma) = l.filter (· != .comma) := by
+  fun_induction stripTC l with
+  | case1 => rfl
+  | case2 r ih => simpa [List.filter_cons] using ih
+  | case3 t r hne ih =>
+    cases t <;> simp [List.filter_cons, ih]
+
+/-- **The region masks nothing but commas.**  Two sequences that the known finding
+`formatter_trailing_comma` excuses have the same non-comma tokens in the same order: a formatter
+that drops, adds, reorders or rewrites any identifier, literal, punctuation other than `,`, or
+delimiter is outside the region and is reported. -/
+theorem C15_region_only_commas (a b : List Tok) (h : regionTrailingComma a b = true) :
+    a.filter (· != .comma) = b.filter (· != .comma) := by
+  have h' := ((C15_region_trailing_comma_spec a b).1 h).2
+  rw [← stripTC_filter_nonComma a, ← stripTC_filter_nonComma b, h']
+
+/-- the region is symmetric (it does not matter which output is called "the formatted one") -/
+theorem C15_region_symm (a b : List Tok) : regionTrailingComma a b = regionTrailingComma b a := by
+  rw [Bool.eq_iff_iff, C15_region_trailing_comma_spec, C15_region_trailing_comma_spec]
+  exact ⟨fun ⟨h₁, h₂⟩ => ⟨fun e => h₁ e.symm, h₂.symm⟩, fun ⟨h₁, h₂⟩ => ⟨fun e => h₁ e.symm, h₂.symm⟩⟩
+
+/-- `stripTC` never lengthens a sequence -/
+theorem stripTC_length_le (l : List Tok) : (stripTC l).length ≤ l.length := by
+  fun_induction stripTC l with
+  | case1 => simp
+  | case2 r ih => simp; omega
+  | case3 t r hne ih => simp; omega
+
+/-- converse of `C15_classify_sound`: class `formatted` under rustfmt means the body is exactly the
+child's stdout, which was valid UTF-8 and came with exit code 0 or 3 -/
+theorem C15_classify_formatted (pp : String → String) (o : Opts) (out : Outcome) (source : String)
+    (hf : o.formatter = .rustfmt) (h : classify o.formatter out = .formatted) :
+    ∃ s st, out = .exited (some s) st ∧ (st = .code 0 ∨ st = .code 3) ∧
+      write pp o out source = .ok (prefixText o ++ s) := by
+  rw [hf] at h
+  cases out with
+  | spawnFailed => simp [classify] at h
+  | readFailed => simp [classify] at h
+  | waitFailed => simp [classify] at h
+  | exited so st =>
+    cases so with
+    | none => simp [classify] at h
+    | some s =>
+      simp only [classify] at h
+      cases ht : triage st with
+      | error => simp [ht] at h
+      | formatted =>
+        refine ⟨s, st, rfl, C15_triage_accepts_only_0_and_3 st ht, ?_⟩
+        unfold write formatTokens
+        rw [hf]; simp [ht]
+
+/-- `Formatter::None` and `Formatter::Prettyplease` never consult a child process: the bytes
+written are the same whatever an (absent) child would have done -/
+theorem C15_no_child_consulted (pp : String → String) (o : Opts) (o₁ o₂ : Outcome) (source : String)
+    (hf : o.formatter ≠ .rustfmt) : write pp o o₁ source = write pp o o₂ source := by
+  unfold write formatTokens
+  cases hf' : o.formatter with
+  | none => rfl
+  | prettyplease => rfl
+  | rustfmt => exact absurd hf' hf
+
+/-- `write` is a function of (options, child outcome, source) and nothing else, and never fails on
+a writer that does not fail -/
+theorem C15_write_never_errs (pp : String → String) (o : Opts) (out : Outcome) (source : String) :
+    write pp o out source ≠ .error () := by
+  obtain ⟨b, h, -⟩ := C15_write_total pp o out source
+  rw [h]; exact fun e => by cases e
+
 /-! non-vacuity -/
+example : regionTrailingComma witnessSrc witnessFmt = true ∧
+    witnessSrc.filter (· != .comma) = witnessFmt.filter (· != .comma) := by decide
+
 example : write id ⟨true, "0.72.0", ["use a;", "use b;"], .rustfmt⟩ (.exited (some "fn f() {}\n") (.code 1)) "fn f () { }"
     = .ok (prefixText ⟨true, "0.72.0", ["use a;", "use b;"], .rustfmt⟩ ++ "fn f () { }") :=
   C15_fallback_token_identical _ _ _ _ rfl (Or.inr (Or.inr (Or.inr (Or.inr ⟨_, _, rfl, by decide, by decide⟩))))
